@@ -15,9 +15,11 @@ TOL = 1e-10
 INTERVALS = [(0.0, 1.0), (-1.0, 3.0), (-1.0, 1.0), (-2.5, -0.5), (0.1, 0.7)]
 
 BOUND = ("1-D point sets of refinement trees on 5 intervals [a,b] ([0,1], [-1,3], [-1,1], [-2.5,-0.5], [0.1,0.7]): every dyadic tree of "
-         "depth 1..4 (676 trees, 3..17 points; quick: all 676 for the trapezoidal family on every interval, for the other families all 25 "
-         "trees of depth<=3 on every interval + all 676 on one interval rotating with the tree index; thorough: everything), plus seeded "
-         "random trees with up to 40 points: strongly graded towards a random target (depth<=12), uniformly random leaves, and "
+         "depth 1..4 (676 trees, 3..17 points; quick: the 25 trees of depth<=3 on every interval for every configuration, each of the "
+         "other 651 trees on one interval (rotating with the tree index) for the trapezoidal/Simpson/Lagrange/BSpline configurations, "
+         "every 4th of them for HighOrder, every 8th for the run-only configurations; thorough: every tree on every interval for every "
+         "configuration), plus seeded random trees (quick 30, thorough 600) with up to 40 points: strongly graded towards a random "
+         "target (depth<=12), uniformly random leaves, and "
          "weighted-midpoint trees (split fraction in [0.2,0.8]; not for BSpline, whose own get_mid_point is the arithmetic midpoint), "
          "each optionally on top of a full base of depth 0..4; a few 2-D tensor cases (two different trees). Configurations: "
          "GlobalTrapezoidalGrid boundary on / off / off+modified; GlobalSimpsonGrid boundary on (off: runs only); GlobalHighOrderGrid "
@@ -467,6 +469,11 @@ def run(ctx):
         p1, l1 = random_grid(ctx.rng, a1, b1, ctx.rng.randint(5, 12), "graded", 2)
         for c in TRAP_CONFS + [conf("simpson"), conf("highorder", p=5, split_up=True), conf("lagrange", p=2), conf("bspline", p=3)]:
             do_case(ctx, c, [a0, a1], [b0, b1], [p0, p1], [l0, l1], "2d")
+
+
+    ctx.note("not demanded (see notes/C09.md): exactness of the non-trapezoidal rules without boundary points. Observed on the unchanged tree: "
+             "GlobalHighOrderGrid(boundary=False) returns weights normalised to sum 2 (fallback branch not rescaled by (b-a)/2); the modified "
+             "BSpline basis integrates linears exactly only if both boundary-adjacent level-2 points exist")
 
 
 def replay(ctx, case):
